@@ -1,7 +1,6 @@
 package inputroot
 
 import (
-	"fmt"
 	"testing"
 
 	"pgregory.net/rapid"
@@ -15,6 +14,15 @@ type faultHeader struct {
 	Kind string `json:"kind"`
 	What string `json:"what"`
 }
+
+// Signature of finding 1 of this package: on a case insensitive mount an
+// input directory with two names that differ only by case makes
+// inMemoryDirectoryContents.attach panic ("may not be attached: file
+// exists") on first access instead of the access failing with an error.
+// Proposed repair: proposed-fixes/0001-*.diff. While the finding is listed
+// as open in known_findings.json the generator renames such entries and
+// counts the exclusion; otherwise the panic is reported as a violation.
+const findingCaseCollisionPanic = "C17/case-insensitive-name-collision-panics"
 
 var enumeratedFaults = []faultKind{faultUnavailable, faultCorrupt, faultTruncated, faultNotFound}
 
@@ -34,6 +42,15 @@ func (sc *scenario) build(faults map[int]faultKind) (*rig, *fakeCAS, error) {
 	r, err := setupRig(c, mat, sc.cfg, false)
 	if err != nil {
 		return nil, nil, err
+	}
+	if sc.cfg.CaseInsensitive {
+		// On a case insensitive file system two names that differ only
+		// by case are duplicates: the directory cannot be presented.
+		for t := range sc.spec.Dirs {
+			if badTmpl[t] == "" && sc.spec.Dirs[t].caseCollision() {
+				badTmpl[t] = "case_collision"
+			}
+		}
 	}
 	r.badTmpl, r.badContent, r.repairFn = badTmpl, badContent, repair
 	return r, c, nil
@@ -64,6 +81,18 @@ func TestC17MalformedAndFaults(t *testing.T) {
 	rapid.Check(t, func(rt *rapid.T) {
 		sc := &scenario{cfg: drawWorldConfig(rt), spec: drawDAG(rt)}
 		sc.malforms = drawMalformations(rt, sc.spec)
+		collisions := false
+		if sc.cfg.CaseInsensitive {
+			if simkit.KnownOpen(findingCaseCollisionPanic) {
+				// Open finding: the trigger is removed by construction.
+				if sc.spec.decollide() > 0 {
+					rec.Exclude("input directory with two names differing only by case on a case-insensitive mount (open finding " + findingCaseCollisionPanic + ")")
+				}
+			}
+			for t := range sc.spec.Dirs {
+				collisions = collisions || sc.spec.Dirs[t].caseCollision()
+			}
+		}
 		header := scriptHeader{Op: "setup", World: sc.cfg, DAG: sc.spec, Malform: sc.malforms}
 
 		// Baseline: generate the script while running it fault-free.
@@ -100,7 +129,13 @@ func TestC17MalformedAndFaults(t *testing.T) {
 			"link":      g.link,
 			"openw":     g.openw,
 			"merge": func(rt *rapid.T) *step {
-				return &step{Op: "merge", Off: rapid.IntRange(0, sc.cfg.Actions-1).Draw(rt, "action")}
+				// Mostly a retry of a merge that failed; rarely a second
+				// merge onto what is already there.
+				a := rapid.IntRange(0, sc.cfg.Actions-1).Draw(rt, "action")
+				if r.merged[a] && rapid.IntRange(0, 4).Draw(rt, "mergeAgain") != 0 {
+					return nil
+				}
+				return &step{Op: "merge", Off: a}
 			},
 			"repair": func(rt *rapid.T) *step {
 				if len(sc.malforms) == 0 || r.repaired {
@@ -124,7 +159,9 @@ func TestC17MalformedAndFaults(t *testing.T) {
 		steps = append(steps, final)
 		nCalls := c.callCount()
 		diag := func(r *rig, where any) {
-			if msg := r.handleLeakDiagnostic(); msg != "" {
+			if r.mergeCollisions > 0 {
+				rec.Label("diagnostic:skipped_after_merge_onto_existing_names")
+			} else if msg := r.handleLeakDiagnostic(); msg != "" {
 				rec.Label("diagnostic:leaf_handles_not_returned")
 				rec.Note(msg + "; script=" + clip(jsonOf(where)))
 			} else if r.w.nfs != nil {
@@ -137,8 +174,14 @@ func TestC17MalformedAndFaults(t *testing.T) {
 		for _, m := range sc.malforms {
 			labels = append(labels, "malformed:"+m.Kind)
 		}
-		if len(sc.malforms) == 0 {
+		if len(sc.malforms) == 0 && !collisions {
 			labels = append(labels, "well_formed")
+		}
+		if collisions {
+			labels = append(labels, "malformed:case_collision_on_case_insensitive_mount")
+		}
+		if sc.cfg.CaseInsensitive {
+			labels = append(labels, "case_insensitive")
 		}
 		if r.badAccess > 0 {
 			labels = append(labels, "persistent_error_reported")
@@ -163,7 +206,6 @@ func TestC17MalformedAndFaults(t *testing.T) {
 				if err != nil {
 					rt.Fatalf("setup failed: %v; script=%s", err, jsonOf(header))
 				}
-				totalFired := 0
 				for i, orig := range steps {
 					st := *orig
 					st.Res = ""
@@ -171,21 +213,10 @@ func TestC17MalformedAndFaults(t *testing.T) {
 					if err := fr.run(&st); err != nil {
 						rt.Fatalf("with %+v, step %d: %v\nscript=%s", fh, i, err, jsonOf([]any{header, fh, steps}))
 					}
-					totalFired += fr.ioSeen
 					if st.Op != "walk" && st.Op != "repair" {
 						if err := fr.run(&step{Op: "walkloaded"}); err != nil {
 							rt.Fatalf("with %+v, after step %d: %v\nscript=%s", fh, i, err, jsonOf([]any{header, fh, steps}))
 						}
-					}
-				}
-				if fc.callCount() <= k && debugCalls {
-					println("baseline calls:")
-					for i, k := range c.calls {
-						println(i, k)
-					}
-					println("replay calls:")
-					for i, k := range fc.calls {
-						println(i, k)
 					}
 				}
 				if fc.callCount() <= k {
@@ -204,5 +235,3 @@ func TestC17MalformedAndFaults(t *testing.T) {
 		}
 	})
 }
-
-var _ = fmt.Sprint
